@@ -1034,8 +1034,9 @@ func (c *smCase) doOp() {
 		if nu > c.peerMax[1] {
 			c.peerMax[1] = nu
 		}
-		fr, fe, cf := c.ext(func() { v.TransportParams(nb, nu) })
-		c.step(u.App("OTransportParams", u.Z(nb), u.Z(nu)), "RUnit", fr, fmt.Sprintf("tparams(%d,%d)", nb, nu))
+		rsa := r.Bool()
+		fr, fe, cf := c.ext(func() { v.TransportParams(nb, nu, rsa) })
+		c.step(u.App("OTransportParams", u.Z(nb), u.Z(nu), u.B(rsa)), "RUnit", fr, fmt.Sprintf("tparams(%d,%d,%v)", nb, nu, rsa))
 		c.collect(fe, cf)
 		c.monSpuriousBlocked(fr)
 	default:
@@ -1240,8 +1241,9 @@ func runSMCase(w *bufio.Writer, r *u.Rng, dist map[string]int, script *smScript)
 		if script == nil && r.Chance(2, 3) { // most connections learn the peer's limits before anything else
 			nb, nu := r.Pick(0, 1, 2, 3, 5), r.Pick(0, 1, 2, 3, 5)
 			c.peerMax = [2]int64{nb, nu}
-			fr, fe, cf := c.ext(func() { c.v.TransportParams(nb, nu) })
-			c.step(u.App("OTransportParams", u.Z(nb), u.Z(nu)), "RUnit", fr, fmt.Sprintf("tparams(%d,%d)", nb, nu))
+			rsa := r.Chance(1, 3)
+			fr, fe, cf := c.ext(func() { c.v.TransportParams(nb, nu, rsa) })
+			c.step(u.App("OTransportParams", u.Z(nb), u.Z(nu), u.B(rsa)), "RUnit", fr, fmt.Sprintf("tparams(%d,%d,%v)", nb, nu, rsa))
 			c.collect(fe, cf)
 		}
 		c.flush()
@@ -1264,8 +1266,9 @@ func runSMCase(w *bufio.Writer, r *u.Rng, dist map[string]int, script *smScript)
 			c.monCredit()
 			c.flush()
 		}
+		rsaFlag, rsaIDs := c.v.ResetStreamAtSnapshot()
 		final := u.App("SMCase", u.B(c.client), u.Z(c.maxIn[0]), u.Z(c.maxIn[1]), u.List(c.steps),
-			c.snapIn(false), c.snapIn(true), c.snapOut(c.v.SnapOut(false)), c.snapOut(c.v.SnapOut(true)), u.B(c.v.IsReset()))
+			c.snapIn(false), c.snapIn(true), c.snapOut(c.v.SnapOut(false)), c.snapOut(c.v.SnapOut(true)), u.B(c.v.IsReset()), u.B(rsaFlag), u.ZList(rsaIDs))
 		nt := 0
 		if c.nframes > 0 || c.nwakes > 0 {
 			nt = 1
